@@ -774,7 +774,7 @@ func runC08(c *mon.Ctx) {
 			for j := 0; j < 1+r.IntN(4); j++ {
 				ll = append(ll, small())
 			}
-			big := filler(40000+2*r.IntN(5000))
+			big := filler(40000 + 2*r.IntN(5000))
 			hdr := 2 + 2*(len(ll)+2)
 			f := 0x10000 + d - hdr - size(ll)
 			if f >= 39000 {
@@ -805,8 +805,8 @@ func runC08(c *mon.Ctx) {
 		default:
 			// offset of the last subtable inside one lookup = 0x10000 + d
 			scen = "subtable-offset"
-			f := filler(0x10000+d-10+8) // subtable of size 0x10000+d-10
-			tail := filler(22+2*r.IntN(40))
+			f := filler(0x10000 + d - 10 + 8) // subtable of size 0x10000+d-10
+			tail := filler(22 + 2*r.IntN(40))
 			l := &gtab.LookupTable{Meta: f.Meta, Subtables: []gtab.Subtable{f.Subtables[0], tail.Subtables[0]}}
 			ll = gtab.LookupList{small(), l, small()}
 		}
